@@ -29,7 +29,8 @@ ReadBytes(bs) == IF bs = <<>> THEN <<>> ELSE SelectSeq(ParseAll(bs), IsSysex)
 \* a file produced elsewhere may hold other messages between the sysex ones,
 \* real-time bytes inside a sysex, or a sysex that was cut short
 RawPool == << <<240, 247>>, <<240, 1, 247>>, <<240, 1, 248, 2, 247>>, <<240, 1, 254, 247>>,
-              <<240, 5, 6>>, <<144, 60, 64>>, <<248>>, <<240, 127, 0, 247>> >>
+              <<240, 5, 6>>, <<144, 60, 64>>, <<248>>, <<240, 127, 0, 247>>,
+              <<240, 1, 244, 2, 247>> >>       \* an undefined status byte (F4) inside a dump is skipped
 ForeignRaw(f) == Flatten([i \in DOMAIN f |-> RawPool[f[i]]])
 
 Init ==
